@@ -571,6 +571,30 @@ def generate_commit_graph(
             # Commit not found, skip
             continue
 
+    # The file cannot tell "no parent" from "parent not in this graph" (both
+    # are stored as GRAPH_PARENT_NONE).  A commit whose parent is not in the
+    # repository at all -- the boundary of a shallow clone -- would read back
+    # as a root even after the missing history has arrived, so leave out
+    # such commits, and with them whatever descends from them; they are
+    # answered from the objects.  (As in git, a shallow clone thus ends up
+    # without a graph for the history above its boundary.)
+    children: dict[ObjectID, list[ObjectID]] = {}
+    for commit_id, commit_obj in commit_map.items():
+        for parent_id in commit_obj.parents:
+            children.setdefault(parent_id, []).append(commit_id)
+    open_ended = [
+        commit_id
+        for commit_id, commit_obj in commit_map.items()
+        if any(
+            parent_id not in commit_map and parent_id not in object_store
+            for parent_id in commit_obj.parents
+        )
+    ]
+    while open_ended:
+        commit_id = open_ended.pop()
+        if commit_map.pop(commit_id, None) is not None:
+            open_ended.extend(children.get(commit_id, ()))
+
     # Calculate generation numbers using topological sort
     generation_map: dict[bytes, int] = {}
 
